@@ -64,7 +64,8 @@ def process_case(draw):
     cores = sorted(set([1] + [draw(st.integers(2, 6)) for _ in range(2)]))
     return {"kind": "process", "spec": spec, "cores": cores, "perm": list(draw(st.permutations(range(n)))),
             "subset": sorted(draw(st.lists(st.integers(0, n - 1), min_size=1, max_size=n, unique=True))),
-            "seed": draw(st.sampled_from([0, 0, 1, 42]) if draw(st.booleans()) else st.integers(0, 10000)), "fault_locus": draw(st.integers(0, n - 1)), "fault_cores": draw(st.sampled_from([1, 2, 3]))}
+            "seed": draw(st.sampled_from([0, 0, 1, 42]) if draw(st.booleans()) else st.integers(0, 10000)), "fault_locus": draw(st.integers(0, n - 1)), "fault_cores": draw(st.sampled_from([1, 2, 3])),
+            "empty_first": draw(st.integers(0, 2)) == 0}
 
 
 def write_bed(path, loci):
@@ -77,6 +78,13 @@ def write_bed(path, loci):
 def check_process(ctx, case):
     problems = []
     spec = case["spec"]
+    if case.get("empty_first"):
+        # the first sample has no reads at all: its fit consumes random numbers like any other
+        spec = copy.deepcopy(spec)
+        first = spec["bams"][0]["read_groups"][0]["sm"]
+        for b in spec["bams"]:
+            sm = {rg["id"]: rg["sm"] for rg in b["read_groups"]}
+            b["reads"] = [r for r in b["reads"] if sm[r["rg"]] != first]
     n = len(spec["loci"])
     wd = os.path.join(common.work_dir(), "c08")
     shutil.rmtree(wd, ignore_errors=True)
@@ -207,7 +215,7 @@ def check_process(ctx, case):
                     return problems
     finally:
         shutil.rmtree(wd, ignore_errors=True)
-        ctx.record(case, len(case["cores"]) >= 2 and n >= 3, ["process", "n_loci=%d" % n] + (["fault_not_first"] if fault_pos > 0 else ["fault_first"]))
+        ctx.record(case, len(case["cores"]) >= 2 and n >= 3, ["process", "n_loci=%d" % n] + (["fault_not_first"] if fault_pos > 0 else ["fault_first"]) + (["first_sample_without_reads"] if case.get("empty_first") else []))
         ctx.evaluations += 10
     return problems
 
